@@ -61,6 +61,10 @@ type Opts struct {
 	// the library learns both addresses from the peer's header, answers with its
 	// own header and an empty features list and is ready.
 	ReceiveDefault bool
+	// HeaderPrefix is put in front of the peer's header (with Default or
+	// ReceiveDefault, where the library's own negotiator reads that header):
+	// e.g. a second XML declaration.
+	HeaderPrefix string
 }
 
 // NS returns the content namespace for o.
@@ -104,7 +108,7 @@ func Header(o Opts) string {
 		if o.S2S {
 			from = ""
 		}
-		return fmt.Sprintf(`<?xml version="1.0"?><stream:stream xmlns='%s' xmlns:stream='%s' version='1.0'%s to='%s'><ready xmlns='%s'/>`,
+		return o.HeaderPrefix + fmt.Sprintf(`<?xml version="1.0"?><stream:stream xmlns='%s' xmlns:stream='%s' version='1.0'%s to='%s'><ready xmlns='%s'/>`,
 			o.NS(), NSStream, from, xmlEsc(o.Local), NSReady)
 	}
 	if o.Default {
@@ -112,7 +116,7 @@ func Header(o Opts) string {
 		if o.PeerOmitsTo {
 			to = ""
 		}
-		return fmt.Sprintf(`<?xml version="1.0"?><stream:stream xmlns='%s' xmlns:stream='%s' version='1.0' id='peerhdr' from='%s'%s><stream:features/>`,
+		return o.HeaderPrefix + fmt.Sprintf(`<?xml version="1.0"?><stream:stream xmlns='%s' xmlns:stream='%s' version='1.0' id='peerhdr' from='%s'%s><stream:features/>`,
 			o.NS(), NSStream, xmlEsc(o.Remote), to)
 	}
 	return fmt.Sprintf(`<?xml version="1.0"?><stream:stream xmlns='%s' xmlns:stream='%s' version='1.0' id='peerhdr' from='%s' to='%s'>`,
